@@ -132,7 +132,9 @@ def make_content(r):
             parts.append((0x10, b'\x02'))
             parts.append((0x15, b'\xf8'))
         if iso:
-            parts.append((32768, b'\x01CD001\x01'))
+            # 1: primary volume descriptor; 2: UDF (NSR03, descriptor type 0); 3: a supplementary
+            # descriptor (type 2) - the identifier is the signature, whatever the type byte says
+            parts.append((32768, {1: b'\x01CD001\x01', 2: b'\x00NSR03\x01', 3: b'\x02CD001\x01'}[iso]))
         d = bytearray(base)
         for off, blob in parts:
             blob = blob[:max(0, length - off)]
@@ -150,7 +152,10 @@ def recipes(ctx):
     for off0 in OFF0:
         for vdi in (0, 1):
             for mbr in (None, 'mbr', 'fat', 'mbr-lba0', 'gpt-protective', 'fat+table'):
-                for iso in (0, 1):
+                for iso in (0, 1, 2, 3):
+                    if iso >= 2 and (vdi or mbr in ('fat', 'fat+table', 'mbr-lba0') or
+                                     off0 not in (None, 'qcow2')):
+                        continue            # the extra ISO kinds: alone, with qcow2, with an MBR
                     n += 1
                     out.append(('overlay', off0, vdi, mbr, iso, 'zeros', BIG))
                     if ctx.thorough:
